@@ -633,7 +633,7 @@ def rule_algorithms(F, R):
             asg = [x for x in f.nodes() if assignment(x) and pp(assignment(x)[0]).startswith("vector.segment")]
             ok = len(asg) == 1 and re.sub(r"<[^()]*>", "", pp(assignment(asg[0])[0])) == "vector.segment(row, block.size())"
             nx = [c for c in f.calls(lambda c: callee(c) == "nano::detail::stack")]
-            ok = ok and all([pp(a) for a in args(c)[:2]] == ["vector", "(row + block.size())"] for c in nx)
+            ok = ok and all([pp(a) for a in args(c)[:2]] == ["vector", CT("(row + block.size())")] for c in nx)
             R.check(ok, "R-C16-5", inst, f.loc(), "the block fills [row, row + size) and the next block starts at row + size", "vector stacking no longer lays the segments out contiguously")
         else:
             asg = [x for x in f.nodes() if assignment(x) and pp(assignment(x)[0]).startswith("matrix.block")]
@@ -647,7 +647,7 @@ def rule_algorithms(F, R):
                 if okn:
                     th = [pp(a) for c in walk(ifs[0]["c"][ifs[0]["r"].index("then")]) if c["k"] == "call" and callee(c) == "nano::detail::stack" for a in args(c)[:3]]
                     el = [pp(a) for c in walk(ifs[0]["c"][ifs[0]["r"].index("else")]) if c["k"] == "call" and callee(c) == "nano::detail::stack" for a in args(c)[:3]]
-                    okn = th == ["matrix", "(row + block_rows)", "0"] and el == ["matrix", "row", "(col + block_cols)"]
+                    okn = th == ["matrix", CT("(row + block_rows)"), "0"] and el == ["matrix", "row", CT("(col + block_cols)")]
                 ok = ok and okn
                 calls = [c for c in f.calls(lambda c: c.get("op") == "()" and pp(c["c"][0]) == "next")]
                 ok = ok and len(calls) == 1 and [pp(a) for a in calls[0]["c"][1:]] in (["block.rows()", "block.cols()"], ["block.size()", "1"])
